@@ -536,16 +536,22 @@ func CheckC17(o *Obs) (string, C17Summary) {
 				sum.MaxFlushed = len(groups)
 			}
 			if oo.BrokerSet {
-				from := 0
+				// the statement orders only the groups a Process call expires ("oldest first"); for
+				// FlushAll/Close it says "every previously gated group was emitted exactly once"
+				usedSend := map[int]bool{}
 				for _, g := range groups {
-					k := sentIdx(oo, g.toks, from, -1)
-					if k < 0 {
-						if sentIdx(oo, g.toks, 0, -1) >= 0 {
-							return fmt.Sprintf("op %d: %s did not emit groups oldest first (group %v of %q)", i, oo.Op, g.toks, g.id), sum
+					k := -1
+					for from := 0; ; {
+						k = sentIdx(oo, g.toks, from, -1)
+						if k < 0 || !usedSend[k] {
+							break
 						}
+						from = k + 1
+					}
+					if k < 0 {
 						return fmt.Sprintf("op %d: %s returned successfully but group %v of %q was not emitted through the Broker", i, oo.Op, g.toks, g.id), sum
 					}
-					from = k + 1
+					usedSend[k] = true
 				}
 				n := 0
 				for _, s := range oo.Sends {
